@@ -5,7 +5,9 @@ A case is 1..4 small generated flows of mixed types (lib/flowgen.py) and a way o
               the "+path" form (k generated; k == n means a single save);
   * "stream": the Save addon in stream mode (save_stream_file) receives a generated interleaving of the flows' start
               and completion hooks (request/response|error, or error alone for an HTTP exchange that fails before its
-              request hook: requestheaders -> error; websocket_end, tcp/udp start/end|error, dns request/response|error); after EVERY hook the file is read back from disk through a second descriptor and must
+              request hook: requestheaders -> error; websocket_end, tcp/udp start/end|error, dns request/response|error),
+              interleaved with runtime changes of save_stream_filter (new value, same value, toggled back; overwrite
+              and append mode): a change must leave the file as it is, later completions are written iff they match; after EVERY hook the file is read back from disk through a second descriptor and must
               parse completely, without error, to exactly the flows completed so far (so a missing flush is seen);
               flows still open at the end are written by done().
 Then EVERY byte offset 0..len(file) of the produced file is used as a crash point: the prefix is loaded with
@@ -68,6 +70,16 @@ def record_ends(data):
 
 
 _START_HOOKS = ("request", "tcp_start", "udp_start", "dns_request")
+# save_stream_filter values changed at runtime in stream mode, with the harness's own reading of what they match
+_FILTERS = [
+    (None, lambda kind: True),
+    ("~all", lambda kind: True),
+    ("~http", lambda kind: kind in ("http", "ws")),
+    ("~tcp", lambda kind: kind == "tcp"),
+    ("~udp | ~dns", lambda kind: kind in ("udp", "dns")),
+    ("!~tcp", lambda kind: kind != "tcp"),
+    ("~http | ~tcp | ~udp | ~dns", lambda kind: True),
+]
 
 
 def _hooks_for(kind, with_error):
@@ -96,6 +108,9 @@ def strategy(ctx):
                                     "errors": st.lists(st.booleans(), min_size=4, max_size=4),
                                     "complete": st.lists(st.booleans(), min_size=4, max_size=4),
                                     "early_error": st.lists(st.sampled_from([False, False, True]), min_size=4, max_size=4),
+                                    # before step s: 0 = leave save_stream_filter alone, k = set it to _FILTERS[k-1]
+                                    # (may be the value it already has, or a toggle back)
+                                    "filters": st.lists(st.sampled_from([0, 0, 0, 1, 2, 3, 4, 5, 6, 7, 2, 7]), min_size=8, max_size=8),
                                     "append": st.booleans()})
     return st.one_of(save, stream)
 
@@ -319,13 +334,28 @@ def _run_stream(case, descs, flows, sa, tctx, path, ctx):
         pending.append(evs)
     expected = list(prior)
     step = 0
+    filt_plan = case.get("filters", [0] * 8)
+    cur_filter = 0
     while any(pending):
         alive = [p for p in pending if p]
         p = alive[case["sched"][step % 8] % len(alive)]
         step += 1
+        fsel = filt_plan[(step - 1) % 8]
+        if fsel:
+            # runtime option change between hooks: nothing that is already in the file may disappear
+            tctx.configure(sa, save_stream_filter=_FILTERS[fsel - 1][0])
+            cur_filter = fsel - 1
+            ctx.cls("stream:filter-change")
+            ctx.ev()
+            with open(path, "rb") as fh:
+                got, outcome = _read_all(fh.read())
+            if outcome != "clean" or [fg.listify(g.get_state()) for g in got] != expected:
+                ctx.fail("stream-file-changed-by-filter-change:" + ("append" if case["append"] else "overwrite"),
+                         "after setting save_stream_filter=%r: %d flows on disk (%s), %d written so far" % (_FILTERS[cur_filter][0], len(got), outcome, len(expected)))
+                return None
         i, hook = p.pop(0)
         getattr(sa, hook)(flows[i])
-        if hook not in _START_HOOKS:
+        if hook not in _START_HOOKS and _FILTERS[cur_filter][1](fg.kind_of(descs[i])):
             expected.append(fg.listify(flows[i].get_state()))
         # the file as another process would see it right now
         with open(path, "rb") as fh:
@@ -336,7 +366,7 @@ def _run_stream(case, descs, flows, sa, tctx, path, ctx):
             ctx.fail("stream-file-unreadable-after-hook:" + hook, "after %s of flow %d the stream file (%d bytes) gives %r" % (hook, i, len(now), outcome))
             return None
         if [fg.listify(g.get_state()) for g in got] != expected:
-            ctx.fail("stream-file-incomplete-after-hook:" + hook, "after %s of flow %d: %d flows on disk, %d completed" % (hook, i, len(got), len(expected)))
+            ctx.fail("stream-file-incomplete-after-hook:" + hook, "after %s of flow %d: %d flows on disk, %d completed and matching" % (hook, i, len(got), len(expected)))
             return None
     # saving stops: flows that started but did not complete are written (order unspecified: active_flows is a set)
     tctx.configure(sa, save_stream_file=None)
@@ -347,7 +377,7 @@ def _run_stream(case, descs, flows, sa, tctx, path, ctx):
         ctx.fail("stream-file-unreadable-after-stop", repr(outcome))
         return None
     tail = [fg.listify(g.get_state()) for g in got[len(expected):]]
-    want = [fg.listify(flows[i].get_state()) for i in open_at_stop]
+    want = [fg.listify(flows[i].get_state()) for i in open_at_stop if _FILTERS[cur_filter][1](fg.kind_of(descs[i]))]
     if [fg.listify(g.get_state()) for g in got[:len(expected)]] != expected or sorted(map(fg.canon_repr, tail)) != sorted(map(fg.canon_repr, want)):
         ctx.fail("stream-file-wrong-after-stop", "%d records after stop, expected %d completed + %d open" % (len(got), len(expected), len(want)))
         return None
